@@ -19,89 +19,89 @@ import RosuModel.Model.ControlPoints
 import RosuModel.Model.TimingDecode
 namespace Rosu
 
-def f64OfHex (s : String) : Float := Float.ofBits (UInt64.ofNat (natOfHex s))
-def fx (x : Float) : String := if x.isNaN then "nan" else hex64 x
-def b01 (b : Bool) : String := if b then "1" else "0"
+def tmF64OfHex (s : String) : Float := Float.ofBits (UInt64.ofNat (natOfHex s))
+def tmFx (x : Float) : String := if x.isNaN then "nan" else hex64 x
+def tmB01 (b : Bool) : String := if b then "1" else "0"
 
-def fmtTiming (p : TimingPoint Float) : String :=
-  fx p.time ++ "/" ++ fx p.beatLen ++ "/" ++ b01 p.omitFirstBarLine ++ "/" ++ toString p.timeSignature.numerator
-def fmtDifficulty (p : DifficultyPoint Float) : String :=
-  fx p.time ++ "/" ++ fx p.sliderVelocity ++ "/" ++ b01 p.generateTicks
-def fmtEffect (p : EffectPoint Float) : String :=
-  fx p.time ++ "/" ++ b01 p.kiai ++ "/" ++ fx p.scrollSpeed
-def fmtSample (p : SamplePoint Float) : String :=
-  fx p.time ++ "/" ++ toString p.sampleBank.idx ++ "/" ++ toString p.sampleVolume ++ "/" ++ toString p.customSampleBank
+def tmFmtTiming (p : TimingPoint Float) : String :=
+  tmFx p.time ++ "/" ++ tmFx p.beatLen ++ "/" ++ tmB01 p.omitFirstBarLine ++ "/" ++ toString p.timeSignature.numerator
+def tmFmtDifficulty (p : DifficultyPoint Float) : String :=
+  tmFx p.time ++ "/" ++ tmFx p.sliderVelocity ++ "/" ++ tmB01 p.generateTicks
+def tmFmtEffect (p : EffectPoint Float) : String :=
+  tmFx p.time ++ "/" ++ tmB01 p.kiai ++ "/" ++ tmFx p.scrollSpeed
+def tmFmtSample (p : SamplePoint Float) : String :=
+  tmFx p.time ++ "/" ++ toString p.sampleBank.idx ++ "/" ++ toString p.sampleVolume ++ "/" ++ toString p.customSampleBank
 
-def fmtList {α : Type} (f : α → String) (l : List α) : String :=
+def tmFmtList {α : Type} (f : α → String) (l : List α) : String :=
   if l.isEmpty then "-" else String.intercalate "," (l.map f)
 
-def fmtOpt {α : Type} (f : α → String) : Option α → String
+def tmFmtOpt {α : Type} (f : α → String) : Option α → String
   | some x => f x
   | none => "-"
 
-def fmtControlPoints (cp : ControlPoints Float) : String :=
-  "T=" ++ fmtList fmtTiming cp.timingPoints ++ " D=" ++ fmtList fmtDifficulty cp.difficultyPoints ++
-  " E=" ++ fmtList fmtEffect cp.effectPoints ++ " S=" ++ fmtList fmtSample cp.samplePoints
+def tmFmtControlPoints (cp : ControlPoints Float) : String :=
+  "T=" ++ tmFmtList tmFmtTiming cp.timingPoints ++ " D=" ++ tmFmtList tmFmtDifficulty cp.difficultyPoints ++
+  " E=" ++ tmFmtList tmFmtEffect cp.effectPoints ++ " S=" ++ tmFmtList tmFmtSample cp.samplePoints
 
-def fmtLookup (cp : ControlPoints Float) (t : Float) : String :=
-  "L:" ++ fmtOpt fmtTiming (cp.timingPointAt t) ++ "|" ++ fmtOpt fmtDifficulty (cp.difficultyPointAt t) ++ "|" ++
-  fmtOpt fmtEffect (cp.effectPointAt t) ++ "|" ++ fmtOpt fmtSample (cp.samplePointAt t)
+def tmFmtLookup (cp : ControlPoints Float) (t : Float) : String :=
+  "L:" ++ tmFmtOpt tmFmtTiming (cp.timingPointAt t) ++ "|" ++ tmFmtOpt tmFmtDifficulty (cp.difficultyPointAt t) ++ "|" ++
+  tmFmtOpt tmFmtEffect (cp.effectPointAt t) ++ "|" ++ tmFmtOpt tmFmtSample (cp.samplePointAt t)
 
-def nanF : Float := Float.ofBits 0x7FF8000000000000
+def tmNanF : Float := Float.ofBits 0x7FF8000000000000
 
 /-- one `cpops` token: the new collection and, for `?`, the lookup line. `none` = malformed token. -/
-def cpOp (cp : ControlPoints Float) (tok : String) : Option (ControlPoints Float × Option String) :=
+def tmCpOp (cp : ControlPoints Float) (tok : String) : Option (ControlPoints Float × Option String) :=
   if tok.startsWith "?" then
-    some (cp, some (fmtLookup cp (f64OfHex (tok.drop 1).toString)))
+    some (cp, some (tmFmtLookup cp (tmF64OfHex (tok.drop 1).toString)))
   else
     match tok.splitOn ":" with
     | ["T", t, b] =>
-      some (cp.addTiming (TimingPoint.new (f64OfHex t) (f64OfHex b) false TimeSignature.simpleQuadruple), none)
+      some (cp.addTiming (TimingPoint.new (tmF64OfHex t) (tmF64OfHex b) false TimeSignature.simpleQuadruple), none)
     | ["D", t, sv, ticks] =>
-      some (cp.addDifficulty (DifficultyPoint.new (f64OfHex t) (if ticks == "1" then 1 else nanF) (f64OfHex sv)), none)
+      some (cp.addDifficulty (DifficultyPoint.new (tmF64OfHex t) (if ticks == "1" then 1 else tmNanF) (tmF64OfHex sv)), none)
     | ["E", t, k, sc] =>
-      some (cp.addEffect { EffectPoint.new (f64OfHex t) (k == "1") with scrollSpeed := f64OfHex sc }, none)
+      some (cp.addEffect { EffectPoint.new (tmF64OfHex t) (k == "1") with scrollSpeed := tmF64OfHex sc }, none)
     | ["S", t, bank, vol, custom] =>
-      some (cp.addSample (SamplePoint.new (f64OfHex t) ((SampleBank.ofInt (bank.toInt?.getD 0)).getD .none)
+      some (cp.addSample (SamplePoint.new (tmF64OfHex t) ((SampleBank.ofInt (bank.toInt?.getD 0)).getD .none)
         (vol.toInt?.getD 0) (custom.toInt?.getD 0)), none)
     | _ => none
 
-def cpOps : ControlPoints Float → List String → List String → Option (ControlPoints Float × List String)
+def tmCpOps : ControlPoints Float → List String → List String → Option (ControlPoints Float × List String)
   | cp, [], acc => some (cp, acc.reverse)
   | cp, tok :: rest, acc =>
-    match cpOp cp tok with
-    | some (cp', some l) => cpOps cp' rest (l :: acc)
-    | some (cp', none) => cpOps cp' rest acc
+    match tmCpOp cp tok with
+    | some (cp', some l) => tmCpOps cp' rest (l :: acc)
+    | some (cp', none) => tmCpOps cp' rest acc
     | none => none
 
-def fmtResults (rs : List String) : String :=
+def tmFmtResults (rs : List String) : String :=
   "r=" ++ (if rs.isEmpty then "-" else String.intercalate "," rs)
 
-def tpRun (st : TimingPointsState Float Float32) : List String → List String →
+def tmTpRun (st : TimingPointsState Float Float32) : List String → List String →
     TimingPointsState Float Float32 × List String
   | [], acc => (st, acc.reverse)
   | h :: rest, acc =>
     let r := if h.startsWith "g" then st.parseGeneral (textOf (h.drop 1).toString)
              else parseTimingPoints st (textOf h)
     match r with
-    | (.ok (), st') => tpRun st' rest ("ok" :: acc)
-    | (.error e, st') => tpRun st' rest (("err:" ++ e.tag) :: acc)
+    | (.ok (), st') => tmTpRun st' rest ("ok" :: acc)
+    | (.error e, st') => tmTpRun st' rest (("err:" ++ e.tag) :: acc)
 
-def genRun (st : GeneralState Float Float32) : List String → List String →
+def tmGenRun (st : GeneralState Float Float32) : List String → List String →
     GeneralState Float Float32 × List String
   | [], acc => (st, acc.reverse)
   | h :: rest, acc =>
     match parseGeneral st (textOf h) with
-    | (.ok (), st') => genRun st' rest ("ok" :: acc)
-    | (.error e, st') => genRun st' rest (("err:" ++ e.tag) :: acc)
+    | (.ok (), st') => tmGenRun st' rest ("ok" :: acc)
+    | (.error e, st') => tmGenRun st' rest (("err:" ++ e.tag) :: acc)
 
-def fmtGeneral (g : GeneralState Float Float32) : String :=
-  "audio=" ++ hexStr g.audioFile ++ " lead=" ++ fx g.audioLeadIn ++ " preview=" ++ toString g.previewTime ++
+def tmFmtGeneral (g : GeneralState Float Float32) : String :=
+  "audio=" ++ hexStr g.audioFile ++ " lead=" ++ tmFx g.audioLeadIn ++ " preview=" ++ toString g.previewTime ++
   " bank=" ++ toString g.defaultSampleBank.idx ++ " vol=" ++ toString g.defaultSampleVolume ++
   " stack=" ++ (if g.stackLeniency.isNaN then "nan" else hex32 g.stackLeniency) ++
   " mode=" ++ toString g.mode.idx ++
-  " flags=" ++ b01 g.letterboxInBreaks ++ b01 g.specialStyle ++ b01 g.widescreenStoryboard ++
-    b01 g.epilepsyWarning ++ b01 g.samplesMatchPlaybackRate ++
+  " flags=" ++ tmB01 g.letterboxInBreaks ++ tmB01 g.specialStyle ++ tmB01 g.widescreenStoryboard ++
+    tmB01 g.epilepsyWarning ++ tmB01 g.samplesMatchPlaybackRate ++
   " countdown=" ++ toString g.countdown.idx ++ " offset=" ++ toString g.countdownOffset
 
 def dispatchTiming (toks : List String) : Option String :=
@@ -109,14 +109,14 @@ def dispatchTiming (toks : List String) : Option String :=
   | "tp" :: mode :: lines =>
     let st0 : TimingPointsState Float Float32 := TimingPointsState.create
     let st1 := (st0.parseGeneral ("Mode: " ++ mode).toList).2
-    let (st, rs) := tpRun st1 lines []
-    some (fmtResults rs ++ " " ++ fmtControlPoints st.finish.2)
+    let (st, rs) := tmTpRun st1 lines []
+    some (tmFmtResults rs ++ " " ++ tmFmtControlPoints st.finish.2)
   | "gen" :: lines =>
-    let (g, rs) := genRun GeneralState.default lines []
-    some (fmtResults rs ++ " " ++ fmtGeneral g)
+    let (g, rs) := tmGenRun GeneralState.default lines []
+    some (tmFmtResults rs ++ " " ++ tmFmtGeneral g)
   | "cpops" :: ops =>
-    some (match cpOps ControlPoints.empty ops [] with
-      | some (cp, ls) => fmtControlPoints cp ++ String.join (ls.map (" " ++ ·))
+    some (match tmCpOps ControlPoints.empty ops [] with
+      | some (cp, ls) => tmFmtControlPoints cp ++ String.join (ls.map (" " ++ ·))
       | none => "bad-request")
   | _ => none
 
